@@ -278,6 +278,7 @@ func allMessages(protoFile *protogen.File) func() []*protogen.Message {
 // The return value is a map[string]string where the key is the import path and the value is the import
 // alias to use in the Go code (extracted from the .proto file's go_package option, if present).
 func getAdditionalImports(protoFile *protogen.File, goPackageForFile map[string]string) func(v interface{}) map[string]string {
+	extensionsOf := getExtensions(protoFile)
 	return func(v interface{}) map[string]string {
 		paths := make(map[string]string)
 		switch tv := v.(type) {
@@ -285,9 +286,16 @@ func getAdditionalImports(protoFile *protogen.File, goPackageForFile map[string]
 			for p, alias := range additionalImportsForType(protoFile.GoImportPath, tv, goPackageForFile) {
 				paths[p] = alias
 			}
+			// the generated code for tv also refers to the types of the extension fields that extend it
+			for p, alias := range additionalImportsForType(protoFile.GoImportPath, &protogen.Message{Fields: extensionsOf(tv)}, goPackageForFile) {
+				paths[p] = alias
+			}
 		case []*protogen.Message:
 			for _, m := range tv {
 				for p, alias := range additionalImportsForType(protoFile.GoImportPath, m, goPackageForFile) {
+					paths[p] = alias
+				}
+				for p, alias := range additionalImportsForType(protoFile.GoImportPath, &protogen.Message{Fields: extensionsOf(m)}, goPackageForFile) {
 					paths[p] = alias
 				}
 			}
